@@ -798,7 +798,8 @@ type c20Plan struct {
 	// fragments of 2 or 3 rows every (left mark, row, right mark) triple of the schema is covered).
 	Deep         int
 	DeepFull3    bool
-	DeepQuad     bool
+	DeepQuad     bool // add the quads
+	DeepNoTri    bool // leave the triples out
 	DeepMinFS    int
 	DeepTimes    []c20TimeRange
 	DeepSettings []c20Setting
@@ -846,7 +847,7 @@ func c20Plans(thorough bool) []c20Plan {
 			// `<atom on s> AND/OR <atom on i>` under the eight time ranges the general 2-atom trees do not use
 			c20Plan{Schema: mk("s,i,time", c20StrCol("s", false, false), c20IntCol("i", false, false), c20TimeCol()), Rows: [3]int{4, 3, 0},
 				Times: [3][]c20TimeRange{times, times2[:2], noTime}, Settings: [3][]c20Setting{setAll, set2, set1},
-				Deep: 3, DeepMinFS: 1, DeepTimes: deepTimes, DeepSettings: set2},
+				Deep: 3, DeepMinFS: 1, DeepTimes: deepTimes, DeepSettings: set1},
 			c20Plan{Schema: mk("sw,iw", c20StrCol("sw", false, false), c20IntGapCol("iw", false)), Rows: [3]int{3, 0, 0}, Times: nt,
 				Settings: [3][]c20Setting{set1, set1, set1}, Wide3: 3},
 			// three data key columns, tiny domains: every record of <= 4 rows, every layout, deep pairs and triples
@@ -858,6 +859,10 @@ func c20Plans(thorough bool) []c20Plan {
 			c20Plan{Schema: mk("sw,iw,k", c20StrCol("sw", false, false), c20IntGapCol("iw", false), c20IntCol("k", false, false)),
 				Rows: [3]int{3, 0, 0}, Times: nt, Settings: [3][]c20Setting{set2, set1, set1},
 				Deep: 3, DeepMinFS: 2, DeepTimes: noTime, DeepSettings: set1},
+			// four key columns in a reduced form: (left mark, row, right mark) triples, 1-atom trees and deep pairs only
+			c20Plan{Schema: mk("i,j,k,l", c20IntCol("i", false, false), c20IntCol("j", false, false), c20IntCol("k", false, false), c20IntCol("l", false, false)),
+				Rows: [3]int{3, 0, 0}, Times: nt, Settings: [3][]c20Setting{set2, set1, set1},
+				Deep: 3, DeepMinFS: 2, DeepNoTri: true, DeepTimes: noTime, DeepSettings: set1},
 		)
 		return ps
 	}
@@ -1040,6 +1045,9 @@ func c20NewPKRun(p *c20Plan, rep *kit.Report, wi *int) *c20PKRun {
 		if p.DeepFull3 {
 			tri = full
 		}
+		if p.DeepNoTri {
+			tri = make([][]int, nk)
+		}
 		for ca := 0; ca < nk; ca++ {
 			for cb := ca + 1; cb < nk; cb++ {
 				for cc := cb + 1; cc < nk; cc++ {
@@ -1132,6 +1140,10 @@ func (r *c20PKRun) layouts(n int) [][]int {
 	var out [][]int
 	if !r.p.AllLayouts {
 		for fs := 1; fs <= 3; fs++ {
+			// fragment sizes >= n all give the one-fragment layout: keep it once
+			if fs > 1 && fs > n {
+				continue
+			}
 			out = append(out, c20FixedLayout(n, fs))
 		}
 		return out
@@ -1639,20 +1651,39 @@ var c20Causes = []string{
 	"pk_index_int_key_mutated_by_scan",                  // bit 2
 }
 
-// kind: the smallest set of repairs (reference switches) under which the fragments in need are returned; the
-// violation is filed under the first cause of that set, the whole set goes into the detail text.
+// kind names the cause of a wrongly pruned fragment (need = fragments that must be returned, actual = fragments the
+// real scan returned). The three defects the switches stand for are fixed in the repository, so the model of the
+// CURRENT recursion is variant 1 (accumulated right-bound mark; the other two switches act on the key references the
+// real reader hands over and are no-ops while the reader is correct).
+//   * base = the model that reproduces the real scan: variant 1 (current code) or variant 0 (right-bound mark lost again).
+//     Neither does => the recursion itself deviates from both models: catch-all.
+//   * the smallest set of further repairs (switches on top of base) under which the fragments in need are returned names
+//     a regression of a fixed defect; the violation is filed under the first cause of that set.
+//   * no set helps: the recursion works as designed on the marks it is given; with a null boolean key that is the
+//     sorter's tie (known finding), otherwise the catch-all.
 func (c *c20Classifier) kind(need uint16, nullBool bool, actual uint16) (string, string) {
 	pass := func(i int) bool { cov, ok := c.variant(i); return ok && need&^cov == 0 }
-	// the unswitched reference must return exactly what the real scan returned; otherwise the real code does
-	// something the model of the known defects does not explain: unknown cause
-	if cov0, ok0 := c.variant(0); !ok0 || cov0 != actual {
-		return "pk_fragment_with_match_pruned", fmt.Sprintf("the reference recursion (known defects included) returns %s, the real scan %s", c20Bits(cov0), c20Bits(actual))
+	base := -1
+	for _, b := range []int{1, 0} {
+		if cov, ok := c.variant(b); ok && cov == actual {
+			base = b
+			break
+		}
+	}
+	if base < 0 {
+		cov1, _ := c.variant(1)
+		cov0, _ := c.variant(0)
+		return "pk_fragment_with_match_pruned", fmt.Sprintf("the reference copy of the recursion returns %s (without the right-bound fix %s), the real scan %s",
+			c20Bits(cov1), c20Bits(cov0), c20Bits(actual))
 	}
 	for _, i := range []int{1, 2, 4, 3, 5, 6, 7} {
+		if i&base != base || i == base {
+			continue
+		}
 		if pass(i) {
 			var names []string
 			for b := 0; b < 3; b++ {
-				if i&(1<<b) != 0 {
+				if i&(1<<b) != 0 && base&(1<<b) == 0 {
 					names = append(names, c20Causes[b])
 				}
 			}
@@ -1662,9 +1693,9 @@ func (c *c20Classifier) kind(need uint16, nullBool bool, actual uint16) (string,
 	if nullBool {
 		// the writer's sorter pads a null boolean with false (record.BooleanSlice.PadBoolSlice): null and false keys
 		// tie and may interleave, so no placement of null marks (+inf or -inf) makes the marks monotone
-		return "pk_null_boolean_key_sorted_with_false", "record has a null boolean key; no combination of the known repairs keeps the fragment"
+		return "pk_null_boolean_key_sorted_with_false", "record has a null boolean key; the recursion works as designed on non-monotone marks"
 	}
-	return "pk_fragment_with_match_pruned", "no combination of the known repairs keeps the fragment"
+	return "pk_fragment_with_match_pruned", "the reference copy of the recursion agrees with the real scan; none of the repairs of the fixed defects keeps the fragment"
 }
 
 // nullBoolKey: some boolean key column of the record holds a null
